@@ -150,7 +150,7 @@ func Groups(thorough bool) []Group {
 			}
 		}
 		for _, succ := range []string{"yes", "no"} {
-			for _, args := range [][]string{nil, {"ls"}, {"ls", "-l", "my file"}, {"sh", "-c", strings.Repeat("A", 257), strings.Repeat("long arg ", 300)}} {
+			for _, args := range [][]string{nil, {"ls"}, {"ls", "-l", "my file"}, {"sh", "-c", strings.Repeat("A", 257), strings.Repeat("long arg ", 300)}, manyArgs(255), manyArgs(256), manyArgs(300)} {
 				for _, np := range []int{0, 1, 2} {
 					for _, eoe := range []bool{false, true} {
 						if !thorough && eoe && np == 2 {
@@ -172,6 +172,15 @@ func AllLines(thorough bool) []string {
 		for _, r := range g.Recs {
 			out = append(out, r.Line)
 		}
+	}
+	return out
+}
+
+// manyArgs: an argument vector of n short arguments (rm f1 f2 ...), still one EXECVE record.
+func manyArgs(n int) []string {
+	out := []string{"rm"}
+	for i := 1; i < n; i++ {
+		out = append(out, fmt.Sprintf("f%d", i))
 	}
 	return out
 }
